@@ -92,7 +92,8 @@ struct Ctx {
   time_zone tz;
   uint64_t events;
 };
-static bool fam_break, fam_make, fam_rt, fam_convert, fam_limits, fam_trans, fam_history;
+static bool fam_break, fam_make, fam_rt, fam_convert, fam_limits, fam_trans, fam_history, fam_twin, fam_small;
+static volatile const char* g_current_zone = "";
 
 static void emit(Ctx& c, const std::string& s) {
   fputs(s.c_str(), c.f);
@@ -219,7 +220,7 @@ static void run_zone(Ctx& c, vt::Rng& r, bool thorough, const std::vector<int64_
   std::vector<Tr> ch = chain(c, 2000);
   // sample of the chain
   std::vector<size_t> pick;
-  size_t want = thorough ? 400 : 48;
+  size_t want = fam_small ? 10 : thorough ? 400 : 48;
   if (ch.size() <= want) {
     for (size_t i = 0; i < ch.size(); ++i) pick.push_back(i);
   } else {
@@ -289,11 +290,11 @@ static void run_zone(Ctx& c, vt::Rng& r, bool thorough, const std::vector<int64_
     lim.push_back(p59 + d); lim.push_back(-p59 + d); lim.push_back(p31 + d); lim.push_back(-p31 + d);
     lim.push_back(d); lim.push_back(2147483647LL + d);
   }
-  for (int h = 0; h < 48; ++h) { lim.push_back(kMin + 3600LL * h + 17); lim.push_back(kMax - 3600LL * h - 17); }
+  for (int h = 0; h < (fam_small ? 4 : 48); ++h) { lim.push_back(kMin + 3600LL * h * 12 + 17); lim.push_back(kMax - 3600LL * h * 12 - 17); }
   for (int64_t k = kMax / k400 - 1; k <= kMax / k400; ++k)
     for (int d = -1; d <= 1; ++d) { lim.push_back(k * k400 + d); lim.push_back(-k * k400 + d); }
-  for (int i = 0; i < 40; ++i) lim.push_back((int64_t)r.next());
-  for (int i = 0; i < 40; ++i) lim.push_back(r.range(-(int64_t(1) << 35), int64_t(1) << 35));
+  for (int i = 0; i < (fam_small ? 6 : 40); ++i) lim.push_back((int64_t)r.next());
+  for (int i = 0; i < (fam_small ? 6 : 40); ++i) lim.push_back(r.range(-(int64_t(1) << 35), int64_t(1) << 35));
   std::vector<civil_second> climit;
   for (int d = 0; d <= 2; ++d) { climit.push_back(civil_second::min() + d); climit.push_back(civil_second::max() - d); }
   for (int i = 0; i < 12; ++i) {
@@ -341,9 +342,9 @@ static void run_zone(Ctx& c, vt::Rng& r, bool thorough, const std::vector<int64_
     for (int64_t t : spec_tr)
       for (int d = -1; d <= 1; ++d) { ev_trans(c, true, sat_add(t, d)); ev_trans(c, false, sat_add(t, d)); }
     ev_trans(c, true, kMin); ev_trans(c, true, kMax); ev_trans(c, false, kMin); ev_trans(c, false, kMax);
-    for (int i = 0; i < 10; ++i) { int64_t t = (int64_t)r.next(); ev_trans(c, true, t); ev_trans(c, false, t); }
+    for (int i = 0; i < (fam_small ? 2 : 10); ++i) { int64_t t = (int64_t)r.next(); ev_trans(c, true, t); ev_trans(c, false, t); }
     // full chains, following the library's own answers: forward from min(), backward from max()
-    if (full_chains) {
+    if (full_chains && !fam_small) {
     emit(c, "{\"e\":\"ChainStart\",\"z\":" + std::to_string(c.z) + ",\"dir\":\"fwd\"}");
     {
       TP t = TP::min();
@@ -414,6 +415,14 @@ static void run_zone(Ctx& c, vt::Rng& r, bool thorough, const std::vector<int64_
 // zones with few transitions always get full chains
 static bool ch_small(Ctx& c) { return chain(c, 130).size() < 120; }
 
+static void alarm_handler(int sig) {
+  fflush(nullptr);
+  const char msg[] = "FATAL: TIMEOUT while handling zone ";
+  (void)!write(2, msg, sizeof msg - 1);
+  (void)!write(2, (const char*)g_current_zone, strlen((const char*)g_current_zone));
+  (void)!write(2, "\n", 1);
+  _exit(72);
+}
 static void crash_handler(int sig) {
   fflush(nullptr);
   const char msg[] = "FATAL: crash signal in driver (assert/ASan)\n";
@@ -439,6 +448,9 @@ int main(int argc, char** argv) {
   fam_limits = fam.find("limits") != std::string::npos;
   fam_trans = fam.find("trans") != std::string::npos;
   fam_history = fam.find("history") != std::string::npos;
+  fam_twin = fam.find("twin") != std::string::npos;
+  fam_small = fam.find("small") != std::string::npos;   // reduced panels (many zones, e.g. mutated files)
+  signal(SIGALRM, alarm_handler);
   // optional spec-generated panel: lines {"name":..., "t":[W...]} are not parsed here; a plain
   // text form "<name>\t<int64> <int64> ..." is used instead
   std::map<std::string, std::vector<int64_t>> panel;
@@ -482,15 +494,49 @@ int main(int argc, char** argv) {
     Ctx c{files[sh], ++zcount[sh], time_zone(), 0};
     int ub;
     bool ok = false;
+    g_current_zone = name.c_str();
+    alarm(thorough ? 120 : 40);
     VT_GUARD(ub, ok = load_time_zone(key, &c.tz));
     emit(c, "{\"e\":\"Load\",\"z\":" + std::to_string(c.z) + ",\"name\":" + vt::jstr(name) + ",\"bytes\":" +
                 bytes_json(bytes) + ",\"ok\":" + (ok && !ub ? "1" : "0") + ",\"isutc\":" +
                 (c.tz == utc_time_zone() ? "1" : "0") + ",\"ub\":" + std::to_string(ub) + "}");
+    if (fam_twin) {
+      // the outcome is a function of the bytes alone: a second load of the same bytes under another
+      // name must agree in verdict, description and answers
+      std::string key2 = key + "#twin";
+      { std::lock_guard<std::mutex> l(g_mu); g_files[key2] = bytes; }
+      time_zone tz2;
+      int ub2;
+      bool ok2 = false, same = true;
+      VT_GUARD(ub2, ok2 = load_time_zone(key2, &tz2));
+      if (ok2 != ok || ub2 != ub) same = false;
+      if (same && ok && !ub) {
+        VT_GUARD(ub2, {
+          if (tz2.description() != c.tz.description()) same = false;
+          vt::Rng r2(seed + 77);
+          for (int i = 0; i < 24 && same; ++i) {
+            int64_t t = (i % 3 == 0) ? (int64_t)r2.next() : r2.range(-4000000000LL, 8000000000LL);
+            auto a = c.tz.lookup(tp(t)), b2 = tz2.lookup(tp(t));
+            if (a.cs != b2.cs || a.offset != b2.offset || a.is_dst != b2.is_dst || strcmp(a.abbr, b2.abbr) != 0) same = false;
+            auto m1 = c.tz.lookup(a.cs), m2 = tz2.lookup(a.cs);
+            if (m1.kind != m2.kind || m1.pre != m2.pre || m1.trans != m2.trans || m1.post != m2.post) same = false;
+          }
+        });
+        if (ub2) same = false;
+      }
+      emit(c, "{\"e\":\"Twin\",\"z\":" + std::to_string(c.z) + ",\"same\":" + (same ? "1" : "0") + "}");
+      { std::lock_guard<std::mutex> l(g_mu); g_files.erase(key2); }
+    }
     if (ok && !ub) {
       ++loaded;
       vt::Rng r(seed * 1000003 + (uint64_t)idx);
-      run_zone(c, r, thorough, panel[name], thorough || ch_small(c) || (uint64_t)idx % 4 == seed % 4);
+      // library calls made while building the panels are guarded as a whole: an undefined operation
+      // there is reported for this zone (and the rest of its panel is skipped)
+      int pub = 0;
+      VT_GUARD(pub, run_zone(c, r, thorough, panel[name], thorough || ch_small(c) || (uint64_t)idx % 4 == seed % 4));
+      if (pub) emit(c, "{\"e\":\"PanelUB\",\"z\":" + std::to_string(c.z) + ",\"ub\":1}");
     }
+    alarm(0);
     total += c.events;
     shard_events[sh] += c.events + 50;
     { std::lock_guard<std::mutex> l(g_mu); g_files.erase(key); }
